@@ -1,17 +1,21 @@
 #!/usr/bin/env bash
 # Runs every stored seeded change against its property's check on a scratch copy; prints one line per seed.
+# tools/seeded_selftest.sh [-j N]   (N seeds at a time, default 3)
 HERE="$(cd "$(dirname "${BASH_SOURCE[0]}")/.." && pwd)"
 cd "$HERE"
-FAIL=0
-for d in seeded/*/; do
-  n="$(basename "$d")"
+J=3; [ "${1:-}" = "-j" ] && J="$2"
+one() {
+  d="$1"; n="$(basename "$d")"
   pid="$(python3 -c "import json;print(json.load(open('$d/meta.json'))['property'])")"
   T="$(mktemp -d /tmp/verif-seed.XXXXXX)"
   rsync -a --exclude .git /repo/ "$T/repo/"
-  (cd "$T/repo" && patch -s -p1 < "$HERE/$d/patch.diff") || { echo "$n: patch no longer applies"; rm -rf "$T"; continue; }
+  (cd "$T/repo" && patch -s -p1 < "$HERE/$d/patch.diff") || { echo "$n: patch no longer applies"; rm -rf "$T"; return; }
   VERIF_REPO="$T/repo" VERIF_EVIDENCE_DIR="$T/evidence" VERIF_REPLAY_DIR="$T/replays" ./check "$pid" > "$T/out" 2>&1; rc=$?
   echo "$n property=$pid check-exit=$rc $(grep -c '^VIOLATION' "$T/out") violation lines"
-  [ "$rc" = 1 ] || FAIL=1
   rm -rf "$T"
-done
-exit $FAIL
+}
+export -f one; export HERE
+OUT="$(ls -d seeded/*/ | xargs -P "$J" -I{} bash -c 'one {}')"
+echo "$OUT" | sort
+echo "$OUT" | grep -qv "check-exit=1 " && exit 1
+exit 0
